@@ -110,6 +110,12 @@ sink s1
   }
 `
 
+// the script itself has a global variable called event (unusual but legal): an
+// invocation's own event value must shadow it, never be written into it
+const c11GlobalEvent = `
+event := {"name": "startup", "state": {"id": 0, "fail": false}}
+` + c11One
+
 func (s *c11State) install() {
 	s.en.def("hyield", func(tid uint64, args []interface{}) (interface{}, error) {
 		vsched.Yield()
@@ -155,6 +161,11 @@ func c11Make(src string, workers int, fails []bool, twoSinks bool) func() (func(
 			run(s.evs[0])
 			wg.Wait()
 			vsched.Quiesce()
+			if strings.Contains(src, `"startup"`) {
+				if v, _, _ := s.en.vs.GetValue("event"); !strings.Contains(fmt.Sprint(v), "startup") {
+					s.probs = append(s.probs, "the script's own global variable event was overwritten by a sink invocation")
+				}
+			}
 			vsched.End()
 		}
 		check := func(e *vsched.Exec) (string, *vsched.Violation) {
@@ -246,6 +257,13 @@ func init() {
 		FreeQuick: 1, FreeThor: 1, QuickShards: 2, ThorShards: 4,
 		Desc: "2 events on 2 workers trigger a sink that assigns to different entries of one global map and one global list without an ECAL mutex (element writes into ECAL containers are tracked by the race check)",
 		Make: c11Make(c11SharedMap, 2, []bool{false, false}, false)})
+	for _, x := range []v{{"fail-ok", []bool{true, false}}, {"ok-ok", []bool{false, false}}} {
+		x := x
+		register(&Scenario{Prop: "C11", Name: "global-named-event-" + x.name + "-w2", Quick: 1, Thor: 2,
+			FreeQuick: 1, FreeThor: 1, QuickShards: 2, ThorShards: 4,
+			Desc: "the script declares a global variable called event; 2 events on 2 workers trigger the same sink: each invocation sees its own event, and the global keeps its value",
+			Make: c11Make(c11GlobalEvent, 2, x.fails, false)})
+	}
 	register(&Scenario{Prop: "C11", Name: "different-globals-ok-ok-w2", Quick: 1, Thor: 2,
 		FreeQuick: 1, FreeThor: 1, QuickShards: 2, ThorShards: 4,
 		Desc: "2 events on 2 workers trigger a sink that writes a different global variable per event and reads global functions, without an ECAL mutex",
